@@ -267,6 +267,11 @@ def run(prog, tier, extra=None):
         cm = gate.order_edges(b, chg, lambda a, c: a[0] == "local" and c[0] == "local")
         if cm:
             res.sample({"rule": R3, "comparison": ["%s: %s %s %s" % (b.loc(c["bb"]), show(c["a"]), c["op"], show(c["b"])) for c in cm][:3]})
+    # fork choice finds the shared ancestor by walking back to the first block flagged in_longest_chain: the flags must follow
+    # every wind/unwind step (C03.lockstep, cross-listed), or a branch that once lost the tip can never win it back
+    from ._include import include
+    include(res, prog, tier, extra, "c03", ["C03.lockstep"],
+            "the shared ancestor of two chains is the first block flagged in_longest_chain: the flag must move with every wind/unwind step")
     res.explanation = (
         "Decides the gating and 'strictly longer' structure of fork choice: the candidate is treated as the longest chain only behind a true is_new_chain_the_longest_chain, "
         "the reorganisation starts only when that flag is set, a failing golden-ticket density check leads only to (false, _), the length test implies len(new) > len(old) and "
